@@ -1,6 +1,7 @@
 import Aldy.Driver.C05
 import Aldy.Driver.C02
 import Aldy.Driver.C03
+import Aldy.Driver.C18
 
 /-! Line-protocol driver: one JSON object per input line (`{"op": ..., ...}`), one JSON
 object per output line.  Errors are reported as `{"error": msg}`; the driver never guesses. -/
@@ -19,6 +20,9 @@ def dispatch (j : Json) : Except String Json := do
   | "cn_filter" => opCNFilter j
   | "cn_fold" => opCNFold j
   | "cn_decision" => opCNDecision j
+  | "params_update" => opParamsUpdate j
+  | "split_param" => opSplitParam j
+  | "param_table" => opParamTable j
   | "ping" => pure (objJ [("pong", boolJ true)])
   | _ => .error s!"unknown op {op}"
 
